@@ -50,7 +50,7 @@ PROPERTIES["C12"] = dict(
     ],
 )
 
-PIPE_FILES = ["pipeline/zz_verif_pipe.go", "pipeline/zz_verif_p08.go", "config::config/zz_verif_export.go", "annotation::annotation/zz_verif_export.go", "assertion/global::global/zz_verif_export.go"]
+PIPE_FILES = ["pipeline/zz_verif_pipe.go", "pipeline/zz_verif_p08.go", "pipeline/zz_verif_p01.go", "pipeline/zz_verif_p07.go", "config::config/zz_verif_export.go", "annotation::annotation/zz_verif_export.go", "assertion/global::global/zz_verif_export.go"]
 INFER_FILES = ["inference/zz_verif_c05.go", "inference/zz_verif_c05l2.go", "inference/zz_verif_c06.go", "inference/zz_verif_c04.go", "inference/zz_verif_c15.go", "inference/zz_verif_c15m.go", "inference/zz_verif_c08.go", "inference/zz_verif_registry.go",
                "annotation::annotation/zz_verif_export.go"]
 
@@ -377,3 +377,59 @@ PROPERTIES["C20"] = dict(
              quick=dict(params=dict(DEPTH=1, STMTS=2)), thorough=dict(params=dict(DEPTH=3, STMTS=1)), args=dict(sample_every=17)),
     ],
 )
+
+
+PIPE_EXPL = ("Source-level pipeline: the harness prints a closed one-package Go program, and the REAL go/parser, go/types checker and go/cfg builder, then the REAL NilAway stages - annotation reading, "
+             "global-variable triggers, nolint collection, assertiontree.BackpropAcrossFunc per function (CFG preprocessing, rich check effects, assertion-tree fixpoint), accumulation.run with the "
+             "diagnostic and inference engines - are all executed from SSA by symx with nothing stubbed. ")
+PIPE_OUTSIDE = ["the analysis driver and the goroutine fan-out of function.run (the harness calls BackpropAcrossFunc function by function, in declaration order)",
+                "ctrlflow's no-return bookkeeping (every call may return); the affiliation, anonymous-function, contract and struct-field analyzers (their results are empty: the grammars have no interfaces to implement, no contracts, no struct fields)",
+                "programs outside the stated grammar; more than one package"]
+PIPE_ASSUME = COMMON_ASSUMPTIONS + ["process environment empty (os.Getenv), reflect.TypeOf not modelled (only stored in analysis.Analyzer.ResultType), internal/buildcfg.Experiment all-off, sync.Pool never reuses, "
+                                    "regexp.MustCompile results shared between paths (pure function of the pattern)"]
+
+PROPERTIES["C01"] = dict(
+    explanation=PIPE_EXPL + "C01: the program is drawn from a grammar of the core pointer fragment (two pointer locals, a package-level pointer, nil, new, copies, dereferences, nil-check guards, early returns, "
+                "opaque if / if-else, a callee in seven shapes); its semantics is built alongside the text as SMT terms over the opaque flags, and 'some execution of Entry() dereferences nil => at least one "
+                "diagnostic' is decided by the solver for every program; a program with exactly one unchecked dereference must be reported on that line, one with none must be clean.",
+    bounds=dict(quick="all 742 programs with 2 statements from 9 straight-line forms + guarded dereference, early-return guard, repair, call, opaque if (7 callee shapes)",
+                thorough="all programs with 3 statements (same forms) and all with 2 statements including opaque if/else"),
+    outside=PIPE_OUTSIDE + ["loops, switches, methods, struct fields, several parameters, recursion, multiple packages (the property's 'any number of packages' half is decided at engine level by C03/C05/C06)",
+                            "programs longer than the bound"],
+    assumptions=PIPE_ASSUME,
+    runs=[
+        dict(pkg="accumulation", files=PIPE_FILES, entry="Harness_P01", quick=dict(params=dict(STMTS=2, COMPOUND=5)), thorough=dict(params=dict(STMTS=3, COMPOUND=5)),
+             args=dict(sample_every=61, max_samples=20)),
+        dict(pkg="accumulation", files=PIPE_FILES, entry="Harness_P01", name="_ifelse", quick=dict(params=dict(STMTS=1, COMPOUND=6)), thorough=dict(params=dict(STMTS=2, COMPOUND=6)),
+             args=dict(sample_every=61, max_samples=20)),
+    ],
+)
+
+PROPERTIES["C07"]["runs"] += [
+    dict(pkg="accumulation", files=PIPE_FILES, entry="Harness_P07", quick=dict(params=dict(PAIRS=0)), thorough=dict(params=dict(PAIRS=1)), args=dict(sample_every=7, max_samples=24)),
+    dict(pkg="accumulation", files=PIPE_FILES, entry="Harness_P01", name="_total", quick=dict(params=dict(STMTS=2, COMPOUND=5)), thorough=dict(params=dict(STMTS=2, COMPOUND=6)), args=dict(sample_every=97, max_samples=12)),
+]
+PROPERTIES["C07"]["explanation"] += (" Totality at source level: " + PIPE_EXPL + "P07 assembles a function body from one (thorough: two) of 50 statement templates that cover the node kinds a control-flow graph can carry "
+    "(type assertions and function literals as conditions or switch tags, range-over-func with literal/defined/aliased yield types and 0-2 variables, range-over-int, labelled break/continue/goto, tagged and tagless "
+    "switches with fallthrough and negated cases, type switches, select, conversions on the left of an assignment, parenthesised multi-value calls, generics, closures, defer/recover, channel operations) and requires "
+    "that nothing internal fails; P01's programs carry the same obligation (P01.A4).")
+PROPERTIES["C07"]["bounds"]["quick"] += "; source level: each of the 50 statement templates alone, and the 742 two-statement programs of the C01 grammar"
+PROPERTIES["C07"]["bounds"]["thorough"] = PROPERTIES["C07"]["bounds"]["quick"] + "; all 2500 ordered pairs of templates"
+PROPERTIES["C07"]["outside"] = ["the universal statement (every type-correct package): only the stated template family and grammars are decided; P07 has no symbolic scalars (template enumeration executed by symx and natively)",
+    "the fixpoint round bound on functions with more than 128 simultaneously rotating variables (known NilAway limitation reported by a seeding sub-agent, not reproduced by this family)",
+    "_maxFuncSizeInCFGBlocks", "goroutine panics inside function.run (C16)"] + PIPE_OUTSIDE
+PROPERTIES["C07"]["assumptions"] = PROPERTIES["C07"]["assumptions"] + PIPE_ASSUME[len(COMMON_ASSUMPTIONS):]
+
+PROPERTIES["C02"]["runs"] += [
+    dict(pkg="accumulation", files=PIPE_FILES, entry="Harness_P01", name="_guards", quick=dict(params=dict(STMTS=2, COMPOUND=5)), thorough=dict(params=dict(STMTS=3, COMPOUND=5)), args=dict(sample_every=61, max_samples=20)),
+]
+PROPERTIES["C02"]["explanation"] += (" Source level (P01.A2): " + PIPE_EXPL + "every program of the C01 grammar whose dereferences are all nil-checked (`if x != nil { _ = *x }`, early-return guards, repairs) must get no diagnostic.")
+PROPERTIES["C02"]["bounds"]["quick"] += "; source level: the 742 two-statement programs of the C01 grammar"
+PROPERTIES["C02"]["bounds"]["thorough"] += "; source level: all three-statement programs of the C01 grammar"
+
+PROPERTIES["C08"]["explanation"] += (" Source level (P08): " + PIPE_EXPL + "a callee returning (*int, error) through two return statements (nil/non-nil value x nil/sentinel error, behind an opaque flag or behind the callee's own "
+    "`if e := other(); e != nil { return nil, e }`), optionally forwarded by `return callee()`, and a caller in eleven forms (proper != nil / == nil check, no check, blank error, check without return, error variable overwritten by an "
+    "assignment or by the next call's := before the check, comparisons with a sentinel instead of nil, two checked calls); the program's semantics over the opaque flags is the oracle: "
+    "'Entry can dereference nil => reported' (solver query per program) and 'convention-respecting callee + proper check => no diagnostic'.")
+PROPERTIES["C08"]["bounds"]["quick"] += "; source level: all 440 callee x caller programs of the P08 family"
+PROPERTIES["C08"]["outside"] = [o for o in PROPERTIES["C08"]["outside"] if not o.startswith("classification of return expressions")] + ["ok-returning functions and named results at source level; return shapes and caller forms beyond the P08 family"] + PIPE_OUTSIDE
